@@ -3,7 +3,7 @@ import ast
 
 from sa import astq
 from sa.astq import norm_text
-from sa.idioms import reach_under, combine, attr_truth
+from sa.idioms import reach_under, combine, attr_truth, guarded
 from sa.project import dotted
 
 EXPLANATION = (
@@ -143,6 +143,43 @@ def check(run, ctx):
     r5(run, ctx)
     r6(run, ctx)
     r7(run, ctx)
+    r9(run, ctx)
+
+
+def r9(run, ctx):
+    run.rule('R9', 'the synchronous wait for a child is only entered for a child that is gone')
+    # Watcher.reap_process(pid) without a status polls waitpid in a sleep loop ON THE LOOP
+    # THREAD until the child can be collected (finding F-REAP-SPIN): every call site must know
+    # the child is dead - a dead-status test, or the true result of an awaited kill_process
+    from rules.common import dead_test
+    from rules.c04 import _kill_result_names
+    rp = W + 'reap_process'
+    n = 0
+    for caller, s in ctx.callers_of([rp], kinds=('call',)):
+        if s.call is None or len(s.call.args) + len(s.call.keywords) != 1:
+            continue          # called with the status already collected (arbiter sweep)
+        n += 1
+        cfg = ctx.cfg(caller)
+        knames = _kill_result_names(ctx, caller)
+
+        def kill_ok(e, knames=knames):
+            base = e
+            while isinstance(base, ast.Subscript):
+                base = base.value
+            if isinstance(base, ast.Name) and base.id in knames:
+                return True
+            if isinstance(e, (ast.Yield, ast.Await)) and e.value is not None and \
+                    'kill_process' in norm_text(e.value):
+                return True
+            return None
+        ok = guarded(cfg, s.node, dead_test, True) or guarded(cfg, s.node, kill_ok, True)
+        run.check('R9', ok, '%s waits synchronously only for a child known to be gone'
+                  % caller.qualname, caller, s.node.ast,
+                  '%s calls reap_process(pid) without knowing that the child is dead (no dead-'
+                  'status test, no true kill_process result): for a live child the loop thread '
+                  'polls waitpid for ever and no request is answered' % caller.qualname,
+                  construct='reap_process on a possibly live child')
+    run.count('R9', n, 2, 'reap_process(pid) call sites')
 
 
 def r1(run, ctx, seen):
